@@ -12,7 +12,8 @@ RULE = ("the configurations of C11 (1-4 inputs, intervals on chr1/chr2/chr10, bo
         "alts is the real [Tumor_Seq_Allele2] incl. the empty cell) with reference alleles from {A,C,G} and "
         "alternate-allele lists that are empty, single, repeated, permuted, overlapping or contained, under each "
         "of the three relations (Equality also as the constructor's default), driven through next(it) / it.next() / both; "
-        "a long-sparse stream (1100-3000 consecutive groups without first-input record); streams: valid, allele-dense (one locus, many allele classes), single defect "
+        "inputs of mixed kinds (plain LocatableByAllele vs MafRecord); records whose Reference_Allele was edited "
+        "in place after an earlier allele-aware pass; MafReader inputs; a long-sparse stream (1100-3000 consecutive groups without first-input record); streams: valid, allele-dense (one locus, many allele classes), single defect "
         "(descent / name-sorted under contigs), adversarial (false records, shuffled inputs, no inputs). "
         "Non-trivial: a positional group whose first slot splits into >= 2 allele classes, or another input's "
         "slot from which the filter removes some but not all records; distinct by hash.")
@@ -172,7 +173,57 @@ def _dense(rng):
     return K.fix_ids(K._sort_inputs(case))
 
 
+def mixed_kinds(rng, case):
+    """plain LocatableByAllele objects in some inputs, real MafRecords in others (a list of known variants
+    against a MAF): the relations compare their alternate alleles all the same"""
+    if case["rectype"] != "loc" or len(case["inputs"]) < 2 or any(
+            r[TUM] is None or r[NOR] is None for inp in case["inputs"] for r in inp):
+        return case
+    kinds = [rng.choice(["loc", "maf"]) for _ in case["inputs"]]
+    if len(set(kinds)) == 1:
+        kinds[0] = "maf" if kinds[0] == "loc" else "loc"
+    case["rectypes"] = kinds
+    for inp, k in zip(case["inputs"], kinds):
+        for r in inp:
+            if k == "maf":
+                r[ALTS] = r[ALTS][:1] if r[ALTS] else [""]
+            elif len(r[ALTS]) > 1 and rng.random() < 0.7:
+                r[ALTS] = r[ALTS][:1]            # single alleles on both sides so that Equality can hold
+    if rng.random() < 0.6:
+        case["otype"] = 0
+    return case
+
+
+def edited_refs(rng, case):
+    """the records have been through an allele-aware pass before and their Reference_Allele was then
+    edited in place: the iterator must see the current value"""
+    if case["rectype"] not in ("maf", "gdc") or case.get("rectypes"):
+        return case
+    recs = [r for inp in case["inputs"] for r in inp if r[TRU]]
+    if not recs:
+        return case
+    before = []
+    for r in rng.sample(recs, min(len(recs), rng.choice([1, 2, 3]))):
+        before.append([r[ID], rng.choice([x for x in ["A", "C", "G"] if x != r[REF]])])
+    case["ref_before"] = before
+    return case
+
+
 def generate(rng, n):
+    out = _generate(rng, n)
+    for k, c in enumerate(out):
+        if c.get("stream") == "long-sparse":
+            continue
+        if k % 7 == 2:
+            out[k] = mixed_kinds(rng, c)
+        elif k % 7 == 4:
+            out[k] = edited_refs(rng, c)
+        elif k % 7 == 6:
+            out[k] = K.as_readers(rng, c)
+    return out
+
+
+def _generate(rng, n):
     out = []
     for k in range(n):
         r = k % 10
@@ -212,6 +263,22 @@ def corpus():
                                          [R(0, "chr1", 5, 5, alts=("C",)), R(0, "chr1", 5, 5, alts=()), R(0, "chr1", 6, 6, alts=("C", "G"))]],
                               "calls": 0}))
     out.append(K.gen_long_sparse(__import__("random").Random(5), 1, 0, 1300))
+    # r4: plain LocatableByAllele against MafRecord under Equality; a reference allele edited in place after an
+    # earlier pass; typed reading of a file in the published gdc-1.0.0 column order (alts = Tumor_Seq_Allele2)
+    out.append(K.fix_ids({"stream": "corpus", "kind": 1, "otype": 0, "by_barcodes": False, "contigs": None, "rectype": "loc",
+                          "rectypes": ["loc", "maf"], "defaults": True,
+                          "inputs": [[R(0, "chr1", 5, 5, t="", n="", alts=("C",)), R(0, "chr1", 5, 5, t="", n="", alts=("G",))],
+                                     [R(0, "chr1", 5, 5, t="", n="", alts=("C",)), R(0, "chr1", 5, 6, t="", n="", alts=("T",))]],
+                          "calls": 0}))
+    out.append(K.fix_ids({"stream": "corpus", "kind": 1, "otype": 0, "by_barcodes": False, "contigs": None, "rectype": "maf",
+                          "ref_before": [[0, "G"]],
+                          "inputs": [[R(0, "chr1", 5, 5, ref="A", alts=("C",)), R(0, "chr1", 5, 5, ref="G", alts=("C",))],
+                                     [R(0, "chr1", 5, 5, ref="A", alts=("C",)), R(0, "chr1", 5, 6, ref="G", alts=("C",))]],
+                          "calls": 0}))
+    out.append(K.fix_ids({"stream": "corpus", "kind": 1, "otype": 0, "by_barcodes": True, "contigs": None, "rectype": "gdc",
+                          "inputs": [[R(0, "chr1", 5, 5, alts=("C",)), R(0, "chr1", 5, 5, alts=("G",))],
+                                     [R(0, "chr1", 5, 5, alts=("A",)), R(0, "chr1", 5, 6, alts=("G",))]],
+                          "calls": 0}))
     # r2: a real MafRecord with an empty Tumor_Seq_Allele2 has alts [""], which is not a subset of ["T"]
     for rt in ("maf",):
         out.append(K.fix_ids({"stream": "corpus", "kind": 1, "otype": 2, "by_barcodes": False, "contigs": None, "rectype": rt,
